@@ -84,6 +84,8 @@ func checkC16(c *Check) {
 	importRules(c, "C18", checkC18, map[string]bool{"R2": true}, "R13")
 	c16CodePairChangedTogether(c, "R14")
 	c04FieldsWinOverDefaults(c, "R15")
+	c16RememberedReplyIsThisMails(c, "R16")
+	c16TemporaryByBasicCode(c, "R17")
 	c.Rule("R3c", "tryDelivery: the status kept for the report and the retry decision come from the same error: every path to the temporariness classification of an attempt's error has stored that error's conversion as the recipient's status (a status left over from an earlier attempt can have the other class)", 1)
 	c16StatusFromThisAttempt(c)
 
